@@ -23,6 +23,7 @@ mod swz_calls;
 mod c17;
 mod c18;
 mod c19;
+mod c20;
 
 fn main() {
     let args: Vec<String> = std::env::args().collect();
@@ -34,7 +35,7 @@ fn main() {
     let scale: usize = args[2].parse().expect("scale");
     let seed: u64 = args[3].parse().expect("seed");
     let outdir = &args[4];
-    std::panic::set_hook(Box::new(|_| {}));
+    if std::env::var("VERIF_SHOW_PANIC").is_err() { std::panic::set_hook(Box::new(|_| {})); }
     let mut ctx = core::Ctx::new(seed ^ 0xC0FFEE, scale);
     if args.len() > 5 {
         ctx.only = Some(args[5].clone());
@@ -51,6 +52,7 @@ fn main() {
         "C16" => { c16::cases(&mut ctx); c16::preds(&mut ctx); }
         "C17" => { c17::cases(&mut ctx); c17::preds(&mut ctx); }
         "C18" => { c18::cases(&mut ctx); c18::preds(&mut ctx); }
+        "C20" => { c20::cases(&mut ctx); c20::preds(&mut ctx); }
         "C19" => { c19::cases(&mut ctx); c19::preds(&mut ctx); }
         "C12" => { c12::cases(&mut ctx); c12::preds(&mut ctx); }
         "C03" => { c03::cases(&mut ctx); c03::preds(&mut ctx); }
